@@ -520,7 +520,7 @@ class GeneratorData:
             openapi = oai.OpenAPI.model_validate(data)
         except ValidationError as err:
             detail = str(err)
-            if "swagger" in data:
+            if isinstance(data, dict) and "swagger" in data:
                 detail = (
                     "You may be trying to use a Swagger document; this is not supported by this project.\n\n" + detail
                 )
